@@ -408,7 +408,6 @@ impl StMut {
 }
 
 /// The public part of a triple in an editable form.
-#[derive(Clone)]
 pub struct PubStatement<E: Engine> {
     pub bits: usize,
     pub cap: usize,
@@ -427,6 +426,21 @@ pub enum Applied {
     Equivalent,
     /// the mutation left the statement identical (e.g. swapping equal commitments)
     Noop,
+}
+
+impl<E: Engine> Clone for PubStatement<E> {
+    fn clone(&self) -> Self {
+        PubStatement {
+            bits: self.bits,
+            cap: self.cap,
+            ext: self.ext,
+            h: self.h.clone(),
+            g: self.g.clone(),
+            commitments: self.commitments.clone(),
+            promises: self.promises.clone(),
+            ctx: self.ctx.clone(),
+        }
+    }
 }
 
 impl<E: Engine> PubStatement<E> {
